@@ -12,6 +12,7 @@ Structural clauses decided (necessary conditions of the property):
   D2  every owned pointer field of the copy is re-allocated/duplicated after any whole-struct copy
   D3  element/data slots of the copy are filled from DUP/dup calls or NULL, never with the original's pointers
   D4  dup does not dereference or dispatch through a field/element that may be NULL in a reachable state
+  D5  the copy's buffer is at least as large as the capacity recorded in it and every extent written is inside it (CAP)
   T1  type() returns the class name of the object's own class
 """
 import re
@@ -456,7 +457,7 @@ def run(tier="quick"):
                      ("K4", "no self-dispatch recursion in comp"), ("K5", "length tie-break in length-bounded comparisons"),
                      ("K6", "comp does not dereference a field/element that may be NULL in a reachable state"),
                      ("D1", "dup returns a fresh object"), ("D2", "owned pointer fields of the copy are fresh"),
-                     ("D3", "elements of the copy are duplicates"), ("D4", "dup is total on nullable states"),
+                     ("D3", "elements of the copy are duplicates"), ("D4", "dup is total on nullable states"), ("D5", "the copy satisfies the representation invariant (its recorded capacity is really allocated)"),
                      ("T1", "type() returns the object's class name")):
         chk.rule(rid, txt)
     prog = facts.extract()
@@ -469,6 +470,11 @@ def run(tier="quick"):
     dups = [f for f in classinfo.functions_in_slot(prog, "dup") if f.unit.name in FILES]
     for f in dups:
         check_dup(chk, prog, summ, f, nullable)
+    # D5: the copy's storage satisfies the class's representation invariant (CAP over the value-class dup functions)
+    from ..capcheck import run_cap
+    vdups = [f for f in dups if f.unit.name in ("str.c", "ustr.c", "mbuff.c", "array.c") and "iterator" not in f.name]
+    nv, nund, _ = run_cap(chk, prog, vdups, rule="D5", noreturn=NORETURN, kinds={"inv", "nul", "upper", "lower", "null"})
+    chk.count("value_class_dups_under_cap", nv, floor=5)
     types = [f for f in classinfo.functions_in_slot(prog, "type") if f.unit.name in FILES]
     for f in types:
         check_type(chk, prog, f)
